@@ -191,8 +191,21 @@ class Oracle:
             if k not in out:
                 self.bad("dropped_key", "C12:provided_key_dropped", path, key=repr(k))
 
+    def typed_section(self, spec, out, path):
+        """Type-only judgement of an already validated settings dict whose input is not known (config player
+        entries: express/list forms are expanded by the player before validation).  Only keys of the spec are
+        looked at; None is accepted everywhere; subconfigs/nested sections are not descended into."""
+        n = 0
+        for k, entry in spec.items():
+            if entry == "ignore" or k[:1] == "_" or isinstance(entry, dict) or k not in out:
+                continue
+            n += 1
+            self.item(entry, UNKNOWN, out[k], "%s:%s" % (path, k), 9, none_always_ok=True)
+        return n
+
     # -- one spec entry ------------------------------------------------------------------
-    def item(self, entry, inp, out, path, depth=0):
+    def item(self, entry, inp, out, path, depth=0, none_always_ok=False):
+        """none_always_ok: type-only judgement of a value whose input is not known (inp is UNKNOWN)."""
         item_type, validation, default = entry
         if inp is MISSING:
             self.evals["default"] += 1
@@ -203,14 +216,14 @@ class Oracle:
                 return
             inp = dflt
         if item_type == "single":
-            self.val(validation, inp, out, path, depth)
+            self.val(validation, inp, out, path, depth, none_always_ok)
         elif item_type == "list":
             self.evals["type"] += 1
             if type(out) is not list:
                 self.bad("type", "C12:ill_typed_list", path, inp=repr(inp)[:200], out=repr(out)[:200])
                 return
             self.container_norm("list", inp, out, path)
-            none_ok = contains_noneish(inp)
+            none_ok = none_always_ok or contains_noneish(inp)
             src = None
             if isinstance(inp, list) and len(inp) == len(out):
                 src = inp
@@ -224,11 +237,11 @@ class Oracle:
                 self.bad("type", "C12:ill_typed_set", path, inp=repr(inp)[:200], out=repr(out)[:200])
                 return
             self.container_norm("set", inp, out, path)
-            none_ok = contains_noneish(inp)
+            none_ok = none_always_ok or contains_noneish(inp)
             for e in out:
                 self.val(validation, UNKNOWN, e, path + "{}", depth, none_ok)
         elif item_type in ("dict", "event_handler"):
-            self.dict_of(validation, inp, out, path, depth)
+            self.dict_of(validation, inp, out, path, depth, none_always_ok)
         else:
             self.evals["type"] += 1
             self.bad("type", "C12:unknown_item_type_accepted", path, item_type=item_type)
@@ -269,7 +282,7 @@ class Oracle:
             self.bad("list_norm", "C12:list_provided_value_dropped" if vanished else "C12:list_length_changed", path,
                      kind=kind, inp=repr(inp)[:200], out=repr(out)[:200], expected_elements=n)
 
-    def dict_of(self, validation, inp, out, path, depth):
+    def dict_of(self, validation, inp, out, path, depth, none_always_ok=False):
         self.evals["type"] += 1
         if not isinstance(out, dict):
             self.bad("type", "C12:ill_typed_dict", path, inp=repr(inp)[:200], out=repr(out)[:200])
@@ -277,7 +290,7 @@ class Oracle:
         if ":" not in validation:
             return
         kv, vv = validation.split(":", 1)
-        none_ok = contains_noneish(inp)
+        none_ok = none_always_ok or contains_noneish(inp)
         # values are paired with their input only when no two input keys were normalised onto one output key
         pairable = isinstance(inp, dict) and len(inp) == len(out)
         for k, v in out.items():
@@ -383,7 +396,7 @@ class Oracle:
             if not isinstance(out, dict):
                 return ill()
             if param:
-                self.dict_of(param, inp, out, path, depth)
+                self.dict_of(param, inp, out, path, depth, none_ok)
             return
         if name == "kivycolor":
             if isinstance(out, str):
